@@ -395,10 +395,12 @@ func (p *Protocol) enqueueMessage(msg Message, deliveryChan chan error) error {
 	p.pendingBytesMu.Lock()
 	if limit > 0 && p.pendingSendBytes+msgLen > limit {
 		p.pendingBytesMu.Unlock()
+		p.verifTrace(5, uint64(msgLen), uint64(limit), msg)
 		p.SendError(ErrProtocolViolationQueueExceeded)
 		return ErrProtocolViolationQueueExceeded
 	}
 	p.pendingSendBytes += msgLen
+	p.verifTrace(4, uint64(msgLen), uint64(p.pendingSendBytes), msg)
 	p.pendingBytesMu.Unlock()
 	outbound := outboundMessage{
 		message:      msg,
@@ -425,6 +427,7 @@ func (p *Protocol) enqueueMessage(msg Message, deliveryChan chan error) error {
 // This ensures that protocol errors immediately terminate the connection and prevent
 // further errors from being generated.
 func (p *Protocol) SendError(err error) {
+	p.verifTrace(15, 0, 0, nil)
 	// Immediately return if we're already shutting down
 	select {
 	case <-p.stopChan:
@@ -440,15 +443,18 @@ func (p *Protocol) SendError(err error) {
 		// Discard error if the buffer is full
 		// The connection will get closed on the first error, so any
 		// additional errors are unnecessary
+		p.verifTrace(16, 0, 0, nil)
 		return
 	}
 	// Stop the protocol on any error to prevent further errors from being generated
 	// and to ensure the connection is properly terminated
+	p.verifTrace(17, 0, 0, nil)
 	p.Stop()
 }
 
 func (p *Protocol) sendLoop() {
 	defer func() {
+		p.verifTrace(18, 0, 0, nil)
 		// Close muxer send channel
 		// We are responsible for closing this channel as the sender, even through it
 		// was created by the muxer
@@ -466,6 +472,7 @@ waitSendReadyChan:
 			// Break out of send loop if we're shutting down
 			return
 		case <-p.sendReadyChan:
+			p.verifTrace(6, 0, 0, nil)
 			// We are ready to send based on state map
 		}
 
@@ -511,6 +518,7 @@ waitSendReadyChan:
 					return
 				}
 				msg := outbound.message
+				p.verifTrace(7, 0, 0, msg)
 				msgCount = msgCount + 1
 
 				// Get raw CBOR from message
@@ -605,6 +613,7 @@ waitSendReadyChan:
 			if deliveryChan != nil && segmentPayloadLength == payloadBuf.Len() {
 				segment.SetDeliveryChan(deliveryChan)
 			}
+			p.verifTrace(8, uint64(segmentPayloadLength), 0, nil)
 			select {
 			case <-p.stopChan:
 				return
@@ -646,6 +655,7 @@ func (p *Protocol) readLoop() {
 				}
 				// Add segment payload to buffer
 				readBuffer.Write(segment.Payload)
+				p.verifTrace(9, uint64(len(segment.Payload)), 0, nil)
 			}
 		}
 		leftoverData = false
@@ -738,6 +748,7 @@ func (p *Protocol) readLoop() {
 		if entry, ok := p.config.StateMap[currentState]; ok {
 			limit = entry.PendingMessageByteLimit
 		}
+		p.verifTrace(10, uint64(currentState.Id), uint64(limit), msg)
 		if limit > 0 {
 			// Fail fast if a single message exceeds the limit to prevent
 			// a livelock where the backpressure loop can never make progress.
@@ -757,6 +768,7 @@ func (p *Protocol) readLoop() {
 				if p.pendingRecvBytes+msgLen <= limit {
 					p.pendingRecvBytes += msgLen
 					p.pendingRecvSizes = append(p.pendingRecvSizes, msgLen)
+					p.verifTrace(11, uint64(msgLen), uint64(p.pendingRecvBytes), msg)
 					p.pendingBytesMu.Unlock()
 					break
 				}
@@ -774,6 +786,7 @@ func (p *Protocol) readLoop() {
 			p.pendingBytesMu.Lock()
 			p.pendingRecvBytes += msgLen
 			p.pendingRecvSizes = append(p.pendingRecvSizes, msgLen)
+			p.verifTrace(11, uint64(msgLen), uint64(p.pendingRecvBytes), msg)
 			p.pendingBytesMu.Unlock()
 		}
 		// Add message to receive queue (blocking with shutdown checks)
@@ -798,6 +811,7 @@ func (p *Protocol) readLoop() {
 
 func (p *Protocol) recvLoop() {
 	defer func() {
+		p.verifTrace(19, 0, 0, nil)
 		close(p.recvDoneChan)
 	}()
 
@@ -812,6 +826,7 @@ func (p *Protocol) recvLoop() {
 		case <-p.muxerDoneChan:
 			return
 		case <-p.recvReadyChan:
+			p.verifTrace(12, 0, 0, nil)
 		}
 		// Read next message from queue
 		select {
@@ -842,6 +857,7 @@ func (p *Protocol) recvLoop() {
 					p.pendingRecvBytes = 0
 				}
 			}
+			p.verifTrace(14, uint64(p.pendingRecvBytes), uint64(len(p.pendingRecvSizes)), msg)
 			p.pendingBytesMu.Unlock()
 		}
 	}
@@ -862,6 +878,7 @@ func (p *Protocol) stateLoop(ch <-chan protocolStateTransition) {
 		p.currentStateMu.Lock()
 		p.currentState = s
 		p.currentStateMu.Unlock()
+		p.verifTrace(1, uint64(s.Id), 0, nil)
 
 		// Mark protocol as ready to send/receive based on role and agency of the new state
 		switch p.config.StateMap[s].Agency {
@@ -934,8 +951,10 @@ func (p *Protocol) stateLoop(ch <-chan protocolStateTransition) {
 			}
 			return
 		case t := <-ch:
+			p.verifTrace(2, 0, 0, t.msg)
 			nextState, err := p.nextState(p.getCurrentState(), t.msg)
 			if err != nil {
+				p.verifTrace(3, 0, 0, t.msg)
 				t.errorChan <- fmt.Errorf(
 					"%s: error handling protocol state transition: %w",
 					p.config.Name,
@@ -1018,5 +1037,6 @@ func (p *Protocol) handleMessage(msg Message) error {
 	}
 
 	// Call handler function
+	p.verifTrace(13, 0, 0, msg)
 	return p.config.MessageHandlerFunc(msg)
 }
